@@ -196,7 +196,9 @@ def char_spelling(b):
     if c == "'":
         return "'\\''"
     if c == "\\":
-        return None      # '\\\\' : the escaped backslash has no documented spelling in char constants
+        return "'\\\\'"
+    if b == 0:
+        return "'\\0'"
     if b == 0x0a:
         return "'\\n'"
     if b == 0x0d:
@@ -311,12 +313,19 @@ def pair_store_case(item):
 INTS = [0, 1, 7, 9, 10, 127, 128, 255, 256, 32767, 32768, 65535, 65536, 2147483647]
 
 
+# decimal literals written with leading zeros are still decimal (C would read them as octal, or refuse 08)
+LEADING_ZERO = ["010", "0100", "007", "00", "0010", "08", "0255", "000000012"]
+
+
 def int_case(_):
     decl, body, want = [], [], {}
     k = 0
-    for v in INTS:
+    for v in INTS + LEADING_ZERO:
         for sign in ("", "-", "+"):
-            for base, txt in (("dec", str(v)), ("hex", "0x%x" % v), ("hexU", "0x%X" % v), ("bin", "0b" + bin(v)[2:])):
+            zero = isinstance(v, str)
+            forms = (("dec", v),) if zero else (("dec", str(v)), ("hex", "0x%x" % v), ("hexU", "0x%X" % v), ("bin", "0b" + bin(v)[2:]))
+            v = int(v, 10) if zero else v
+            for base, txt in forms:
                 if base == "bin" and sign:
                     continue      # BIN_NUMBER has no sign in the grammar
                 lit = sign + txt
